@@ -265,7 +265,7 @@ CONTRACTS.append(Contract(
 # Every translation unit of a fixed corpus (the examples of C11 6.10.3.5 and hand-written corner cases) and of a
 # generated corpus (2-4 object-like / function-like macros whose bodies mention parameters, other macros, calls,
 # #param and a ## b; 1-3 uses) is preprocessed by the real CPreProcessor and the token sequence compared with
-# the reference expander contracts/cppref.py.
+# the reference expander contracts/cppref.py.  A third corpus nests conditional directives.
 from contracts import cppref as REF
 
 CASES = [
@@ -327,6 +327,45 @@ def gen_program(rnd, feat):
 
 
 
+def gen_cond(rnd):
+    names = ["A", "B", "N", "M"]
+    lines = []
+    defined = set()
+    def cond():
+        r = rnd.random()
+        x, y = rnd.choice(names), rnd.choice(names)
+        if r < 0.2: return "defined(%s)" % x
+        if r < 0.3: return "!defined %s" % x
+        if r < 0.45: return "%s > %d" % (x, rnd.randint(0, 2))
+        if r < 0.6: return "%s == %s" % (x, y)
+        if r < 0.7: return "defined(%s) && %s" % (x, y)
+        if r < 0.8: return "!%s || defined(%s)" % (x, y)
+        if r < 0.9: return "%d" % rnd.randint(0, 1)
+        return "(%s + 1) * 2 >= %s" % (x, y)
+    def block(depth):
+        for _ in range(rnd.randint(1, 3)):
+            r = rnd.random()
+            if r < 0.3:
+                lines.append("#define %s %s" % (rnd.choice(names), rnd.choice(["0", "1", "2", "A", "N", "(1)", "B + 1"])))
+            elif r < 0.4:
+                lines.append("#undef %s" % rnd.choice(names))
+            elif r < 0.7 or depth >= 2:
+                lines.append("%s x%d %s" % (rnd.choice(names), rnd.randint(0, 9), rnd.choice(names)))
+            else:
+                k = rnd.random()
+                if k < 0.3: lines.append("#ifdef %s" % rnd.choice(names))
+                elif k < 0.5: lines.append("#ifndef %s" % rnd.choice(names))
+                else: lines.append("#if %s" % cond())
+                block(depth + 1)
+                for _ in range(rnd.randint(0, 2)):
+                    lines.append("#elif %s" % cond()); block(depth + 1)
+                if rnd.random() < 0.6:
+                    lines.append("#else"); block(depth + 1)
+                lines.append("#endif")
+    block(0)
+    return "\n".join(lines) + "\n"
+
+
 def ppci_tokens(src):
     from ppci.lang.c import CPreProcessor, COptions
     p = CPreProcessor(COptions())
@@ -357,6 +396,9 @@ def bounded(tier_name, rnd):
     for i in range(n):
         feat = ([], ["str"], ["paste"], ["str", "paste"])[i % 4]
         units.append(("gen-%d" % i, gen_program(r, feat)))
+    r2 = random.Random(20260923)
+    for i in range(n // 2):
+        units.append(("cond-%d" % i, gen_cond(r2)))
     evals, judged, vio, distinct = 0, 0, [], set()
     for name, src in units:
         evals += 1
@@ -371,10 +413,11 @@ def bounded(tier_name, rnd):
     return {"evaluations": evals, "distinct_nontrivial": len(distinct), "exhaustive": False,
             "rule": "fixed corpus (%d units: C11 6.10.3.5 examples 3, 4, 5, 7 and corner cases of rescanning, hide sets, empty arguments, # and ##) plus %d generated units "
                     "(deterministic seed; 2-4 macros, bodies of 1-4 items drawn from parameters, macro names, nested calls, literals, #param, a ## b; 1-3 uses, some followed by "
-                    "a parenthesised list); a unit counts when the reference expander accepts it (arity errors and unterminated calls are not judged); distinct = distinct source texts"
-                    % (len(CASES), n),
+                    "a parenthesised list) plus %d generated units of nested conditional directives (#ifdef / #ifndef / #if / #elif / #else / #endif over defined(), comparisons, && || !, with "
+                    "#define / #undef inside taken and skipped groups); a unit counts when the reference expander accepts it (arity errors and unterminated calls are not judged); distinct = distinct source texts"
+                    % (len(CASES), n, n // 2),
             "programs": judged, "samples": [{"unit": "fixed-6", "source": CASES[6]}, {"unit": units[len(CASES) + 3][0], "source": units[len(CASES) + 3][1]}],
-            "bound": "macro expansion only (no conditionals, includes, variadic macros, comments, line splices); units of at most 5 lines; %s tier: %d generated units" % (tier_name, n),
+            "bound": "macro expansion and conditional directives (no includes, variadic macros, comments, line splices, #if arithmetic beyond small literals); short units; %s tier: %d + %d generated units" % (tier_name, n, n // 2),
             "violations": vio}
 
 
